@@ -273,6 +273,229 @@ impl MapAux for SL {
 set_impl!(ST, "SetTree", false);
 set_impl!(SL, "SetList", true);
 
+// ---- plain instantiation: MapTree<i32, u32> / MapList<i32, u32> / SetTree<i32, i32> / SetList<i32> ----
+// Small, uninstrumented types (an 8-byte map entry, a 4-byte set value using the crate's own
+// `KeyValue<i32> for i32`). The map value packs (key offset, version) so that a value that ends
+// up under the wrong key is still visible; a plain set value *is* its key, so the version of a
+// set entry is unobservable (VER_ANY) and expectations are normalised accordingly.
+
+pub const VER_ANY: u32 = u32::MAX - 2;
+
+type PMT = MapTree<i32, u32>;
+type PML = MapList<i32, u32>;
+type PST = SetTree<i32, i32>;
+type PSL = SetList<i32>;
+
+/// "The value does not say which key it was inserted for" (plain map over a large universe:
+/// the 32-bit value holds the unique version only, which still identifies the insertion).
+pub const KEY_ANY: i32 = i32::MIN + 7;
+
+thread_local! {
+    /// key_lo of the current plain run (keys are packed relative to it)
+    static PLAIN_LO: std::cell::Cell<i32> = const { std::cell::Cell::new(0) };
+    /// universe too large for packing the key offset into the value
+    static PLAIN_WIDE: std::cell::Cell<bool> = const { std::cell::Cell::new(false) };
+}
+
+#[inline]
+fn pack(k: i32, ver: u32) -> u32 {
+    if PLAIN_WIDE.with(|w| w.get()) {
+        return ver;
+    }
+    let off = (k.wrapping_sub(PLAIN_LO.with(|l| l.get())).wrapping_add(2)) as u32 & 0xFFF;
+    (off << 20) | (ver & 0xF_FFFF)
+}
+#[inline]
+fn unpack(v: u32) -> (i32, u32) {
+    if PLAIN_WIDE.with(|w| w.get()) {
+        return (KEY_ANY, v);
+    }
+    let off = (v >> 20) as i32;
+    (off.wrapping_sub(2).wrapping_add(PLAIN_LO.with(|l| l.get())), v & 0xF_FFFF)
+}
+fn cmp_plain(x: i32, p: i32, fl: u8) -> Ordering {
+    match fl {
+        0 => x.cmp(&p),
+        _ => {
+            if x <= p {
+                Ordering::Less
+            } else {
+                Ordering::Greater
+            }
+        }
+    }
+}
+
+macro_rules! plain_map_impl {
+    ($ty:ty, $name:expr, $list:expr) => {
+        impl OColl for $ty {
+            fn name(&self) -> &'static str {
+                $name
+            }
+            fn is_list(&self) -> bool {
+                $list
+            }
+            fn has_neighbours(&self) -> bool {
+                false
+            }
+            fn insert(&mut self, k: i32, ver: u32) {
+                MapCollection::insert(self, k, pack(k, ver))
+            }
+            fn delete(&mut self, k: i32) {
+                MapCollection::delete(self, k)
+            }
+            fn delete_by_index(&mut self, h: u32) {
+                MapCollection::delete_by_index(self, h)
+            }
+            fn get(&self, k: i32) -> Option<Seen> {
+                MapCollection::get_value(self, k).map(|v| {
+                    let (pk, ver) = unpack(*v);
+                    (pk, pk, ver)
+                })
+            }
+            fn read(&self, h: u32) -> Seen {
+                let (pk, ver) = unpack(*MapCollection::value_by_index(self, h));
+                (pk, pk, ver)
+            }
+            fn write(&mut self, h: u32, ver: u32) {
+                let v = MapCollection::value_by_index_mut(self, h);
+                let (pk, _) = unpack(*v);
+                *v = pack(pk, ver);
+            }
+            fn first(&self, p: i32) -> u32 {
+                MapCollection::first_index_less(self, p)
+            }
+            fn first_by(&self, p: i32, fl: u8) -> u32 {
+                MapCollection::first_index_less_by(self, |x: i32| cmp_plain(x, p, fl))
+            }
+            fn next(&self, _h: u32) -> u32 {
+                unreachable!()
+            }
+            fn prev(&self, _h: u32) -> u32 {
+                unreachable!()
+            }
+            fn is_empty(&self) -> bool {
+                MapCollection::is_empty(self)
+            }
+            fn clear(&mut self) {
+                MapCollection::clear(self)
+            }
+            fn snapshot(&self) -> Option<Snap> {
+                map_snapshot(self)
+            }
+            fn stored_keys(&self) -> Vec<i32> {
+                map_keys(self)
+            }
+            fn fresh(&self, cap: usize) -> Box<dyn OColl> {
+                Box::new(<$ty>::new(cap))
+            }
+        }
+    };
+}
+
+impl MapAux for PMT {
+    fn aux_snapshot(&self) -> Option<Snap> {
+        Some(snap_from(self.verif_snapshot(), |k: &i32| *k))
+    }
+    fn aux_keys(&self) -> Vec<i32> {
+        inorder_keys(&self.aux_snapshot().unwrap())
+    }
+}
+impl MapAux for PML {
+    fn aux_snapshot(&self) -> Option<Snap> {
+        None
+    }
+    fn aux_keys(&self) -> Vec<i32> {
+        self.verif_keys()
+    }
+}
+plain_map_impl!(PMT, "MapTree", false);
+plain_map_impl!(PML, "MapList", true);
+
+macro_rules! plain_set_impl {
+    ($ty:ty, $name:expr, $list:expr) => {
+        impl OColl for $ty {
+            fn name(&self) -> &'static str {
+                $name
+            }
+            fn is_list(&self) -> bool {
+                $list
+            }
+            fn has_neighbours(&self) -> bool {
+                true
+            }
+            fn insert(&mut self, k: i32, _ver: u32) {
+                SetCollection::<i32, i32>::insert(self, k)
+            }
+            fn delete(&mut self, k: i32) {
+                SetCollection::<i32, i32>::delete(self, &k)
+            }
+            fn delete_by_index(&mut self, h: u32) {
+                SetCollection::<i32, i32>::delete_by_index(self, h)
+            }
+            fn get(&self, k: i32) -> Option<Seen> {
+                SetCollection::<i32, i32>::get_value(self, &k).map(|v| (*v, *v, VER_ANY))
+            }
+            fn read(&self, h: u32) -> Seen {
+                let v = *SetCollection::<i32, i32>::value_by_index(self, h);
+                (v, v, VER_ANY)
+            }
+            fn write(&mut self, h: u32, _ver: u32) {
+                // the value is the key: write it back unchanged
+                let v = SetCollection::<i32, i32>::value_by_index_mut(self, h);
+                let same = *v;
+                *v = same;
+            }
+            fn first(&self, p: i32) -> u32 {
+                SetCollection::<i32, i32>::first_index_less(self, &p)
+            }
+            fn first_by(&self, p: i32, fl: u8) -> u32 {
+                SetCollection::<i32, i32>::first_index_less_by(self, |x: &i32| cmp_plain(*x, p, fl))
+            }
+            fn next(&self, h: u32) -> u32 {
+                SetCollection::<i32, i32>::index_after(self, h)
+            }
+            fn prev(&self, h: u32) -> u32 {
+                SetCollection::<i32, i32>::index_before(self, h)
+            }
+            fn is_empty(&self) -> bool {
+                SetCollection::<i32, i32>::is_empty(self)
+            }
+            fn clear(&mut self) {
+                SetCollection::<i32, i32>::clear(self)
+            }
+            fn snapshot(&self) -> Option<Snap> {
+                self.aux_snapshot()
+            }
+            fn stored_keys(&self) -> Vec<i32> {
+                self.aux_keys()
+            }
+            fn fresh(&self, cap: usize) -> Box<dyn OColl> {
+                Box::new(<$ty>::new(cap))
+            }
+        }
+    };
+}
+
+impl MapAux for PST {
+    fn aux_snapshot(&self) -> Option<Snap> {
+        Some(snap_from(self.verif_snapshot(), |v: &i32| *v))
+    }
+    fn aux_keys(&self) -> Vec<i32> {
+        inorder_keys(&self.aux_snapshot().unwrap())
+    }
+}
+impl MapAux for PSL {
+    fn aux_snapshot(&self) -> Option<Snap> {
+        None
+    }
+    fn aux_keys(&self) -> Vec<i32> {
+        self.verif_values()
+    }
+}
+plain_set_impl!(PST, "SetTree", false);
+plain_set_impl!(PSL, "SetList", true);
+
 #[derive(Clone, Debug)]
 pub struct OrdGen {
     pub w: [u32; 14],
@@ -342,11 +565,26 @@ impl OrdWorld {
     pub fn new(cfg: Cfg, rng: Option<&mut Rng>) -> OrdWorld {
         let is_set = cfg.world == WorldKind::Set;
         let mut colls: Vec<Box<dyn OColl>> = Vec::new();
+        let plain = cfg.key_ty == 1;
+        if plain {
+            PLAIN_LO.with(|l| l.set(cfg.key_lo));
+            PLAIN_WIDE.with(|w| w.set(cfg.universe > 1024));
+        }
         if cfg.colls & C_TREE != 0 {
-            colls.push(if is_set { Box::new(ST::new(cfg.cap)) } else { Box::new(MT::new(cfg.cap)) });
+            colls.push(match (is_set, plain) {
+                (true, false) => Box::new(ST::new(cfg.cap)),
+                (false, false) => Box::new(MT::new(cfg.cap)),
+                (true, true) => Box::new(PST::new(cfg.cap)),
+                (false, true) => Box::new(PMT::new(cfg.cap)),
+            });
         }
         if cfg.colls & C_LIST != 0 {
-            colls.push(if is_set { Box::new(SL::new(cfg.cap)) } else { Box::new(ML::new(cfg.cap)) });
+            colls.push(match (is_set, plain) {
+                (true, false) => Box::new(SL::new(cfg.cap)),
+                (false, false) => Box::new(ML::new(cfg.cap)),
+                (true, true) => Box::new(PSL::new(cfg.cap)),
+                (false, true) => Box::new(PML::new(cfg.cap)),
+            });
         }
         let n = colls.len();
         let gen = match rng {
@@ -429,6 +667,15 @@ impl OrdWorld {
         if cfg.has(O_TWIN) {
             g.forced_clear_at = Some(r.below(12) as usize);
         }
+        if cfg.cap > 1_000_000 {
+            // a huge arena: a few insertions, a clear, then the rest of the short history
+            g.forced_clear_at = Some(2 + r.below(4) as usize);
+            g.fill_target = None;
+            g.fill_pct = 0;
+            g.w[W_INS] = 20;
+            g.w[W_DEL] = g.w[W_DEL].max(10);
+            g.max_pop = 64;
+        }
         g.last_key = cfg.key_lo + r.below(cfg.universe.max(1) as u64) as i32;
         g
     }
@@ -461,8 +708,22 @@ impl OrdWorld {
         }
     }
 
+    /// What the collection can show of the entry (key, version): a plain set value is its key.
+    #[inline]
+    fn ent(&self, k: i32, v: u32) -> Seen {
+        if self.is_set && self.cfg.key_ty == 1 {
+            (k, k, VER_ANY)
+        } else if self.cfg.key_ty == 1 && self.cfg.universe > 1024 {
+            (KEY_ANY, KEY_ANY, v)
+        } else if self.cfg.key_ty == 1 {
+            (k, k, v & 0xF_FFFF)
+        } else {
+            (k, k, v)
+        }
+    }
+
     fn expected_seen(&self, k: i32) -> Option<Seen> {
-        self.model.get(&k).map(|v| (k, k, *v))
+        self.model.get(&k).map(|v| self.ent(k, *v))
     }
 
     fn sweep_keys(&self) -> Vec<i32> {
@@ -528,8 +789,8 @@ impl OrdWorld {
         let with_first = Self::sweep_with_first(&self.cfg);
         let mut out = Vec::with_capacity(keys.len() * 2 + 1);
         for q in keys {
-            out.push(model.get(&q).map(|v| (q, q, *v)));
-            out.push(if with_first { model.range(..=q).next_back().map(|(k, v)| (*k, *k, *v)) } else { None });
+            out.push(model.get(&q).map(|v| self.ent(q, *v)));
+            out.push(if with_first { model.range(..=q).next_back().map(|(k, v)| self.ent(*k, *v)) } else { None });
         }
         out.push(if model.is_empty() { None } else { Some((0, 0, 0)) });
         out
@@ -708,7 +969,7 @@ impl OrdWorld {
     }
 
     fn reach_delete(&mut self, ctx: &mut RunCtx, k: i32) {
-        if !ctx.collect_shapes {
+        if !ctx.collect_shapes || self.cfg.cap > 1_000_000 {
             return;
         }
         if let Some(s) = self.colls[0].snapshot() {
@@ -721,7 +982,7 @@ impl OrdWorld {
     }
 
     fn reach_insert(&mut self, ctx: &mut RunCtx, k: i32) {
-        if !ctx.collect_shapes {
+        if !ctx.collect_shapes || self.cfg.cap > 1_000_000 {
             return;
         }
         if let Some(s) = self.colls[0].snapshot() {
@@ -852,20 +1113,20 @@ impl OrdWorld {
 
     fn expected_answer(&self, op: &Op) -> Vec<Option<Seen>> {
         let m = &self.model;
-        let pred = |p: i32| m.range(..=p).next_back().map(|(k, v)| (*k, *k, *v));
+        let pred = |p: i32| m.range(..=p).next_back().map(|(k, v)| self.ent(*k, *v));
         match *op {
             Op::OGet { k } => vec![self.expected_seen(k)],
             Op::OEmpty => vec![if m.is_empty() { None } else { Some((0, 0, 0)) }],
             Op::OFirst { p } | Op::OHRead { p } | Op::OHWrite { p } | Op::OHDel { p } => vec![pred(p)],
-            Op::ONext { k } => vec![m.range((std::ops::Bound::Excluded(k), std::ops::Bound::Unbounded)).next().map(|(a, v)| (*a, *a, *v))],
-            Op::OPrev { k } => vec![m.range(..k).next_back().map(|(a, v)| (*a, *a, *v))],
+            Op::ONext { k } => vec![m.range((std::ops::Bound::Excluded(k), std::ops::Bound::Unbounded)).next().map(|(a, v)| self.ent(*a, *v))],
+            Op::OPrev { k } => vec![m.range(..k).next_back().map(|(a, v)| self.ent(*a, *v))],
             Op::OWalk => {
                 if m.is_empty() {
                     return vec![];
                 }
-                let mut out: Vec<Option<Seen>> = m.iter().map(|(k, v)| Some((*k, *k, *v))).collect();
+                let mut out: Vec<Option<Seen>> = m.iter().map(|(k, v)| Some(self.ent(*k, *v))).collect();
                 out.push(None);
-                out.extend(m.iter().rev().map(|(k, v)| Some((*k, *k, *v))));
+                out.extend(m.iter().rev().map(|(k, v)| Some(self.ent(*k, *v))));
                 out.push(None);
                 out
             }
@@ -1178,8 +1439,13 @@ impl OrdWorld {
                 }
             }
         }
-        for (i, k) in keys.iter().enumerate() {
-            self.model.insert(*k, first_ver + i as u32);
+        if self.model.is_empty() {
+            // bulk construction of the reference map (sorted input is built in linear time)
+            self.model = keys.iter().enumerate().map(|(i, k)| (*k, first_ver + i as u32)).collect();
+        } else {
+            for (i, k) in keys.iter().enumerate() {
+                self.model.insert(*k, first_ver + i as u32);
+            }
         }
         self.post_structure(ctx, "OBulk")?;
         if cfg.has(O_OGET) {
@@ -1282,7 +1548,7 @@ impl OrdWorld {
         }
         let which = r.weighted(&self.gen.del_w);
         let ks: Vec<i32> = self.model.keys().copied().collect();
-        let snap = if which >= 5 { self.colls[0].snapshot() } else { None };
+        let snap = if which >= 5 && self.cfg.cap <= 1_000_000 { self.colls[0].snapshot() } else { None };
         Some(match which {
             0 => *self.gen.order.last().unwrap_or(&ks[0]),
             1 => *self.gen.order.first().unwrap_or(&ks[0]),
@@ -1425,6 +1691,12 @@ impl World for OrdWorld {
                 }
                 if deepest.0 >= 34 {
                     _ctx.stats.bump("bulk.path_of_34_or_more_entries");
+                }
+                if deepest.0 >= 47 {
+                    _ctx.stats.bump("bulk.path_of_47_or_more_entries");
+                }
+                if std::env::var("VERIF_DEBUG_BULK").is_ok() {
+                    eprintln!("bulk n={} longest root-to-leaf path: {} entries", self.model.len(), deepest.0);
                 }
                 let lo = *self.model.keys().next().unwrap();
                 let hi = *self.model.keys().next_back().unwrap();
